@@ -3,8 +3,8 @@
 demo passes on the clean tree, fails with the change, and the existing lib tests of the touched crates
 still pass (no test of the stable baseline fails).  Writes <seed>/meta.json."""
 import json, os, re, subprocess, sys, shutil, time
-WT = "/tmp/confirm"
-TARGET = "/tmp/confirm-target"
+WT = os.environ.get("CONFIRM_WT", "/tmp/confirm")
+TARGET = os.environ.get("CONFIRM_TARGET", "/tmp/confirm-target")
 BASE = json.load(open("/root/.vp/BASELINE.json"))
 STABLE = set(BASE["stable_pass"])
 
